@@ -28,6 +28,11 @@ def representations(bse, b, rng):
                 sh['exponents'] = [sh['exponents'][i] for i in perm]
                 sh['coefficients'] = [[c[i] for i in perm] for c in sh['coefficients']]
     reps.append(('spdf_split_shuffled', s))
+    # the order of the elements in the dictionary is part of the representation too (readers keep file order)
+    if len(b['elements']) > 1:
+        r = copy.deepcopy(b)
+        r['elements'] = dict(reversed(list(r['elements'].items())))
+        reps.append(('elements_reversed', r))
     return reps
 
 
